@@ -188,7 +188,7 @@ CLAIMED = {
     'C10': dict(
         text='Theorems (Coq, axiom-free): C10_first_fit -- for every input, sorted list, mode set, option and planner, the symbol returned is the first '
              'listed symbol whose capacity holds the stream the encoder produced (nothing is lost to the symbol choice; later symbols never have '
-             'smaller capacity, C10_order_is_capacity). The full statement -- minimal over ALL legal encodings -- is false of the faithful model: '
+             'smaller capacity, C10_order_is_capacity). C10_greedy_optimal / C10_ascii_only_minimal: for the ASCII-only configuration the full statement IS a theorem -- greedy digit pairing is the shortest among all legal ASCII encodings, so the symbol is the smallest one any legal stream of the enabled mode fits. In general the full statement -- minimal over ALL legal encodings -- is false of the faithful model: '
              'C10_exact_fit_refuted exhibits, by kernel evaluation of the encoder and decoder models, an 11-byte input for which a 10-codeword '
              'stream accepted by the crate\'s own decoder exists, an 8x32 symbol is listed, and the encoder returns a 12-codeword symbol. This is the '
              'recorded finding C10-exact-fit (known_findings.json; not a small patch). Outside that class optimality is decided per case against '
